@@ -1,265 +1,97 @@
 /-
-  SlacModel.Time — model of src/stdlib/time.rs over the proleptic Gregorian calendar (what chrono's NaiveDate
-  implements): date-time numbers are days since 1970-01-01 with the time of day as the fraction.
-  Calendar arithmetic is exact Int arithmetic (`/` and `%` on Int are floor division / non-negative remainder
-  for positive divisors).  `none` = outside the modelled subset (custom strftime formats, RFC 2822/3339 functions,
-  free-form parsing): such cases are skipped and counted by the correspondence check, never guessed.
+  SlacModel.Time — model of src/stdlib/time.rs: the string builtins `date_to_string`, `time_to_string`,
+  `string_to_date`, `string_to_time`, `string_to_datetime` on top of
+    SlacModel.TimeCore   calendar, `decode`/`encode`, the component builtins (year … millisecond, encode_*, inc_month)
+    SlacModel.TimeFmt    chrono's strftime language and the formatter for a naive date-time
+    SlacModel.TimeParse  chrono's scanners, item parser and `Parsed` resolution
+  (all in `namespace Slac.Time`); the RFC 2822/3339 builtins are in SlacModel.TimeRfc.
+  All five builtins are inside the model for every argument list, with one exception: `string_to_date` /
+  `string_to_datetime` answer `none` (unmodelled) when the resolution reaches `NaiveDate::from_isoywd_opt` with ISO
+  year `i32::MIN` (date in the previous calendar year) or `i32::MAX` (date in the next one) — only possible with `%G`
+  and the literal years -2147483648 / 2147483647 — because chrono's `i32` arithmetic overflows there (panic in
+  builds with overflow checks, `OutOfRange` error otherwise).
 -/
-import SlacModel.Stdlib
+import SlacModel.TimeParse
 set_option autoImplicit false
 namespace Slac
 namespace Time
 
-def isLeap (y : Int) : Bool := y % 4 == 0 && (y % 100 != 0 || y % 400 == 0)
+/-! ### the builtins `date_to_string`, `time_to_string`, `string_to_date`, `string_to_time`, `string_to_datetime` -/
 
-def daysInMonth (y : Int) (m : Nat) : Nat :=
-  match m with
-  | 1 | 3 | 5 | 7 | 8 | 10 | 12 => 31
-  | 4 | 6 | 9 | 11 => 30
-  | 2 => if isLeap y then 29 else 28
-  | _ => 0
+def fmtDate : Str := ['%', 'Y', '-', '%', 'm', '-', '%', 'd']
+def fmtTime : Str := ['%', 'H', ':', '%', 'M', ':', '%', 'S']
+def fmtDatetime : Str := fmtDate ++ ' ' :: fmtTime
 
-/-- chrono's NaiveDate range -/
-def minYear : Int := -262143
-def maxYear : Int := 262142
-
-def validDate (y : Int) (m d : Nat) : Bool :=
-  decide (minYear ≤ y) && decide (y ≤ maxYear) && decide (1 ≤ m) && decide (m ≤ 12) && decide (1 ≤ d) && decide (d ≤ daysInMonth y m)
-
-/-- days since 1970-01-01 of a civil date -/
-def daysFromCivil (y : Int) (m d : Nat) : Int :=
-  let y' : Int := if m ≤ 2 then y - 1 else y
-  let era : Int := y' / 400
-  let yoe : Int := y' - era * 400
-  let mp : Int := ((m : Int) + 9) % 12
-  let doy : Int := (153 * mp + 2) / 5 + (d : Int) - 1
-  let doe : Int := yoe * 365 + yoe / 4 - yoe / 100 + doy
-  era * 146097 + doe - 719468
-
-/-- civil date of a day number -/
-def civilFromDays (z : Int) : Int × Nat × Nat :=
-  let z := z + 719468
-  let era : Int := z / 146097
-  let doe : Int := z - era * 146097
-  let yoe : Int := (doe - doe / 1460 + doe / 36524 - doe / 146096) / 365
-  let y : Int := yoe + era * 400
-  let doy : Int := doe - (365 * yoe + yoe / 4 - yoe / 100)
-  let mp : Int := (5 * doy + 2) / 153
-  let d : Int := doy - (153 * mp + 2) / 5 + 1
-  let m : Int := if mp < 10 then mp + 3 else mp - 9
-  (if m ≤ 2 then y + 1 else y, m.toNat, d.toNat)
-
-/-- Monday = 0 … Sunday = 6 (1970-01-01 was a Thursday) -/
-def weekday (days : Int) : Nat := ((days + 3) % 7).toNat
-
-def msPerDay : Int := 86400000
-
-structure DT where
-  days : Int          -- days since 1970-01-01
-  ms : Nat            -- millisecond of the day, < 86 400 000
-deriving DecidableEq, Repr
-
-def DT.year (t : DT) : Int := (civilFromDays t.days).1
-def DT.month (t : DT) : Nat := (civilFromDays t.days).2.1
-def DT.day (t : DT) : Nat := (civilFromDays t.days).2.2
-def DT.hour (t : DT) : Nat := t.ms / 3600000
-def DT.minute (t : DT) : Nat := t.ms / 60000 % 60
-def DT.second (t : DT) : Nat := t.ms / 1000 % 60
-def DT.milli (t : DT) : Nat := t.ms % 1000
-def DT.totalMs (t : DT) : Int := t.days * msPerDay + t.ms
-
-/-- `DateTime::from_timestamp_millis`: in range iff the date is a NaiveDate -/
-def ofMillis (ms : Int) : Option DT :=
-  let days := ms / msPerDay
-  let y := (civilFromDays days).1
-  if minYear ≤ y && y ≤ maxYear then some ⟨days, (ms % msPerDay).toNat⟩ else none
-
+section
 variable {N : Type} [NumX N]
 open Stdlib
 
-def dayLen : N := NumX.ofNat 86400000
+/-- `Value::from(NaiveDateTime)` on a millisecond count: one division -/
+def encodeMs (ms : Int) : Value N := .num (NumOps.div (NumX.ofInt ms) dayLen)
 
-/-- `NaiveDateTime::try_from(&Value)`: `(value * MS_PER_DAY).round() as i64`, then `from_timestamp_millis` -/
-def decode : Value N → Except NativeError DT
-  | .num x =>
-    match ofMillis (NumX.toI64 (NumX.round (NumOps.mul x dayLen))) with
-    | some t => .ok t
-    | none => .error (custom "datetime out of range")
-  | _ => .error .wrongParameterType
+/-- `map_err(|e| NativeError::from(e.to_string()))`; `none` (unmodelled) only for `PErr.intOverflow` -/
+def finish (r : PRes Int) : Option (Res N) :=
+  match r with
+  | .ok ms => some (.ok (encodeMs ms))
+  | .error .intOverflow => none
+  | .error e => some (.error (custom e.msg))
 
-/-- `Value::from(NaiveDateTime)`: `timestamp_millis as f64 / MS_PER_DAY` -/
-def encode (t : DT) : Value N := .num (NumOps.div (NumX.ofInt t.totalMs) dayLen)
+/-- `reject_leap_second` -/
+def rejectLeap (t : NTime) : PRes Unit := if t.nano ≥ 1000000000 then .error .outOfRange else .ok ()
 
-def component (f : DT → N) : List (Value N) → Res N
-  | [v] => match decode v with
-    | .ok t => .ok (.num (f t))
-    | .error e => .error e
-  | _ => .error (.wrongParameterCount 1)
+/-- `write!(formatted, "{}", datetime.format(fmt)).map_err(|_| NativeError::from("invalid format string"))` -/
+def fmtResult : Option Str → Res N
+  | some s => .ok (.str s)
+  | none => .error (custom "invalid format string")
 
-def year : List (Value N) → Res N := component fun t => NumX.ofInt t.year
-def month : List (Value N) → Res N := component fun t => NumX.ofNat t.month
-def day : List (Value N) → Res N := component fun t => NumX.ofNat t.day
-def hour : List (Value N) → Res N := component fun t => NumX.ofNat t.hour
-def minute : List (Value N) → Res N := component fun t => NumX.ofNat t.minute
-def second : List (Value N) → Res N := component fun t => NumX.ofNat t.second
-def millisecond : List (Value N) → Res N := component fun t => NumX.ofNat t.milli
-def dayOfWeek : List (Value N) → Res N := component fun t => NumX.ofNat (weekday t.days)
-
-def isLeapYear : List (Value N) → Res N
-  | [v] => match decode v with
-    | .ok t => .ok (.bool (isLeap t.year))
-    | .error e => .error e
-  | _ => .error (.wrongParameterCount 1)
-
-def encodeDate : List (Value N) → Res N
-  | [.num y, .num m, .num d] =>
-    let yi := NumX.toI32 y; let mi := NumX.toU32 m; let di := NumX.toU32 d
-    if validDate yi mi di then .ok (encode ⟨daysFromCivil yi mi di, 0⟩)
-    else .error (custom "invalid date parameters")
-  | [_, _, _] => .error .wrongParameterType
-  | _ => .error (.wrongParameterCount 3)
-
-/-- `NaiveTime::from_hms_milli_opt`: a millisecond part of 1000–1999 is accepted when sec = 59 (leap second) -/
-def validTime (h m s ms : Nat) : Bool :=
-  decide (h < 24) && decide (m < 60) && decide (s < 60) && (decide (ms < 1000) || (decide (s = 59) && decide (ms < 2000)))
-
-def encodeTime (params : List (Value N)) : Res N :=
-  match defaultNumber params 3 (NumOps.zero : N) with
-  | .error e => .error e
-  | .ok milli =>
-    match params with
-    | .num h :: .num m :: .num s :: _ =>
-      if NumX.ge0 h && NumX.ge0 m && NumX.ge0 s && NumX.ge0 milli then
-        let hi := NumX.toU32 h; let mi := NumX.toU32 m; let si := NumX.toU32 s; let li := NumX.toU32 milli
-        if validTime hi mi si li then .ok (.num (NumOps.div (NumX.ofInt (((hi * 3600 + mi * 60 + si) * 1000 + li : Nat) : Int)) dayLen))
-        else .error (custom "invalid time parameters")
-      else .error (custom "invalid time parameters")
-    | _ :: _ :: _ :: _ => .error .wrongParameterType
-    | _ => .error (.wrongParameterCount 3)
-
-/-- `checked_add_months` / `checked_sub_months` on the date part: whole months, day clamped to the target month -/
-def addMonths (t : DT) (k : Int) : Option DT :=
-  let (y, m, d) := civilFromDays t.days
-  let total : Int := y * 12 + ((m : Int) - 1) + k
-  let y' := total / 12
-  let m' := (total % 12).toNat + 1
-  if minYear ≤ y' && y' ≤ maxYear then
-    some ⟨daysFromCivil y' m' (min d (daysInMonth y' m')), t.ms⟩
-  else none
-
-def incMonth (params : List (Value N)) : Res N :=
-  match defaultNumber params 1 (NumOps.ofBool true : N) with
-  | .error e => .error e
-  | .ok inc =>
-    match params with
-    | v :: _ =>
-      match decode v with
-      | .error e => .error e
-      | .ok t =>
-        let delta : Int := (NumX.toI32 inc).natAbs
-        if NumX.gt0 inc then
-          match addMonths t delta with
-          | some t' => .ok (encode t')
-          | none => .error (custom "inc_month increment overflow")
-        else if NumX.lt0 inc then
-          match addMonths t (-delta) with
-          | some t' => .ok (encode t')
-          | none => .error (custom "inc_month decrement underflow")
-        else .ok (encode t)
-    | _ => .error (.wrongParameterCount 1)
-
-/-! ### default-format printing and parsing (the modelled strftime subset) -/
-def pad (w : Nat) (n : Nat) : Str := let ds := Nat.toDigits 10 n; List.replicate (w - ds.length) '0' ++ ds
-
-/-- `%Y`: zero-padded to 4 digits; years outside 0–9999 carry an explicit sign -/
-def fmtYear (y : Int) : Str :=
-  if 0 ≤ y && y ≤ 9999 then pad 4 y.toNat
-  else if y < 0 then '-' :: pad 4 y.natAbs else '+' :: pad 4 y.toNat
-
-/-- strftime subset: %Y %m %d %H %M %S %.3f %% and literal characters; anything else ⇒ `none` (unmodelled) -/
-def strftime (t : DT) : Str → Option Str
-  | [] => some []
-  | '%' :: 'Y' :: r => (strftime t r).map (fmtYear t.year ++ ·)
-  | '%' :: 'm' :: r => (strftime t r).map (pad 2 t.month ++ ·)
-  | '%' :: 'd' :: r => (strftime t r).map (pad 2 t.day ++ ·)
-  | '%' :: 'H' :: r => (strftime t r).map (pad 2 t.hour ++ ·)
-  | '%' :: 'M' :: r => (strftime t r).map (pad 2 t.minute ++ ·)
-  | '%' :: 'S' :: r => (strftime t r).map (pad 2 t.second ++ ·)
-  | '%' :: '.' :: '3' :: 'f' :: r => (strftime t r).map (('.' :: pad 3 t.milli) ++ ·)
-  | '%' :: '%' :: r => (strftime t r).map ('%' :: ·)
-  | '%' :: _ => none
-  | c :: r => (strftime t r).map (c :: ·)
-
+/-- `date_to_string` / `time_to_string`: always inside the model (the result is never `none`) -/
 def dateToString : List (Value N) → Option (Res N)
   | [.str fmt, v] =>
     match decode v with
     | .error e => some (.error e)
-    | .ok t => (strftime t fmt).map fun s => .ok (.str s)
+    | .ok t => some (fmtResult (strftime t fmt))
   | [_, _] => some (.error .wrongParameterType)
   | _ => some (.error (.wrongParameterCount 2))
 
-def digit? (c : Char) : Option Nat := if '0' ≤ c && c ≤ '9' then some (c.toNat - 48) else none
-def num2 (a b : Char) : Option Nat := do let x ← digit? a; let y ← digit? b; pure (x * 10 + y)
-def num4 (a b c d : Char) : Option Nat := do let x ← num2 a b; let y ← num2 c d; pure (x * 100 + y)
-
-/-- canonical `YYYY-MM-DD` only (chrono's parser accepts more spellings: those are unmodelled) -/
-def parseDate : Str → Option (Option (Int × Nat × Nat))
-  | [y1, y2, y3, y4, '-', m1, m2, '-', d1, d2] =>
-    match num4 y1 y2 y3 y4, num2 m1 m2, num2 d1 d2 with
-    | some y, some m, some d => some (if validDate y m d then some (y, m, d) else none)
-    | _, _, _ => none
-  | _ => none
-/-- canonical `HH:MM:SS` only; a second of 60 is chrono's leap second, rejected by the builtin -/
-def parseTime : Str → Option (Option Nat)
-  | [h1, h2, ':', m1, m2, ':', s1, s2] =>
-    match num2 h1 h2, num2 m1 m2, num2 s1 s2 with
-    | some h, some m, some s => some (if h < 24 && m < 60 && s < 60 then some ((h * 3600 + m * 60 + s) * 1000) else none)
-    | _, _, _ => none
-  | _ => none
-
 def stringToDate (params : List (Value N)) : Option (Res N) :=
-  match defaultString params 1 [] with
+  match defaultString params 1 fmtDate with
   | .error e => some (.error e)
-  | .ok _ =>
+  | .ok fmt =>
     match params with
-    | [.str s] =>
-      match parseDate s with
-      | some (some (y, m, d)) => some (.ok (encode ⟨daysFromCivil y m d, 0⟩))
-      | some none => some (.error (custom "input is out of range"))
-      | none => none
-    | .str _ :: _ => none                       -- custom format
+    | .str s :: _ => finish (do
+        let p ← parseAll (items fmt) s
+        let d ← p.toNaiveDate
+        pure (d * msPerDay))
     | _ :: _ => some (.error .wrongParameterType)
     | [] => some (.error (.wrongParameterCount 1))
 
 def stringToTime (params : List (Value N)) : Option (Res N) :=
-  match defaultString params 1 [] with
+  match defaultString params 1 fmtTime with
   | .error e => some (.error e)
-  | .ok _ =>
+  | .ok fmt =>
     match params with
-    | [.str s] =>
-      match parseTime s with
-      | some (some ms) => some (.ok (encode ⟨0, ms⟩))
-      | some none => some (.error (custom "input is out of range"))
-      | none => none
-    | .str _ :: _ => none
+    | .str s :: _ => finish (do
+        let p ← parseAll (items fmt) s
+        let t ← p.toNaiveTime
+        rejectLeap t
+        pure (NDT.millis ⟨0, t⟩))
     | _ :: _ => some (.error .wrongParameterType)
     | [] => some (.error (.wrongParameterCount 1))
 
 def stringToDatetime (params : List (Value N)) : Option (Res N) :=
-  match defaultString params 1 [] with
+  match defaultString params 1 fmtDatetime with
   | .error e => some (.error e)
-  | .ok _ =>
+  | .ok fmt =>
     match params with
-    | [.str s] =>
-      if s.length == 19 && s[10]? == some ' ' then
-        match parseDate (s.take 10), parseTime (s.drop 11) with
-        | some (some (y, m, d)), some (some ms) => some (.ok (encode ⟨daysFromCivil y m d, ms⟩))
-        | some _, some _ => some (.error (custom "input is out of range"))
-        | _, _ => none
-      else none
-    | .str _ :: _ => none
+    | .str s :: _ => finish (do
+        let p ← parseAll (items fmt) s
+        let t ← p.toNaiveDatetime 0
+        rejectLeap t.time
+        pure t.millis)
     | _ :: _ => some (.error .wrongParameterType)
     | [] => some (.error (.wrongParameterCount 1))
+
+end
 
 end Time
 end Slac
